@@ -48,8 +48,9 @@ class BoundaryCondition:
         self.__unknowns = unknowns
         self.__nodes = np.asarray(nodes, dtype=int)
         self.__dofs = np.asarray(dofs, dtype=int)
-        assert (
-            self.dofs.size % self.nodes.size == 0
+        # a selection that bounds no loaded element gives an empty condition, which contributes nothing
+        assert (self.nodes.size == 0 and self.dofs.size == 0) or (
+            self.nodes.size > 0 and self.dofs.size % self.nodes.size == 0
         ), f"dofs.size must be a multiple of {self.nodes.size}"
         self.__dofsValues = np.asarray(dofsValues, dtype=float)
         # assert dofs.size == dofsValues.size, "must be the same size." don't uncomment !
